@@ -6,11 +6,21 @@ exponents are exact at every value; anything else is referred to a 60-digit `dec
 judging a VALUE only when a factor, a partial product or the coefficient leaves [2^-900, 2^900] (overflow / underflow is
 outside its rounding model; the bit-for-bit correspondence K still decides there).  Tolerance: 64u per token of the
 intended term list (coefficient and exponent conversions, one powf and one product per factor, one addition per term)
-plus 4u * sum |e ln x| for the effect of the exponent's own rounding, all relative to sum |term|."""
+plus 4u * sum |e ln x| for the effect of the exponent's own rounding, all relative to sum |term|.
+The STORED numbers of a `parse` answer (canonical form) are judged to the last bit (`_stored_ok`): a coefficient /
+exponent must be the double nearest to the exact value of its spelling, or what operation-wise rounding of the spelling
+gives (every literal correctly rounded, one IEEE division for a/b, IEEE additions in the order of occurrence for the
+exponents of a repeated variable), or lie between the two; for a literal and for a/b with integers below 2^53 these
+coincide.  The intended term list names every OCCURRENCE of a variable (a repeated code point), so both the exact sum
+(the meaning: a repeated variable multiplies) and the left-to-right binary64 sum are known.  A number that is snapped
+to a nearby whole number, compared with a tolerance, truncated, or divided by way of a reciprocal lies outside that
+set as soon as the exact value is not the special value itself (when it IS - x^0.6x^0.3x^0.1 means x^1 - the exact
+value is accepted as well as the binary64 sum 0.9999999999999999: the statement promises the meaning, and K still
+compares the stored number with the model's bit for bit)."""
 from fractions import Fraction
 from oracle_util import *
 
-RULE = ("texts rendered from random term lists of the multivariate grammar (1-5 terms, 0-4 distinct variables per term in random "
+RULE = ("(round 4, narrow windows around special values: fraction exponents and fraction coefficients written as ratios of huge integers a/b with a = k b +- 1, 2, 3, b from 1e3 to 1e17 [powers of ten, multiples, random integers, 2^30..2^56 and neighbours], k = 0..10 of either sign, and next to 1/2, 1/3, 2/3, 3/2, 1/4, 5/2; decimals at distance 10^-1..10^-20 from whole numbers and halves, also as numerator / denominator; exponents of a repeated variable - decimal or fraction pieces, other variables in between - that add up to 1, 0, -1, 2, 1/2, 3 in exact arithmetic [one or two units in the last place off in binary64: x^0.6x^0.3x^0.1, ten factors x^0.1, x^0.4x^-1.4] or to such a value +- 1e-10..1e-19; texts with duplicated terms [a later term equal to the first / to its neighbour, all equal, p + p, a term and its negative, the same variables in neighbouring terms]; structures with exponents 1..4 ulps / 2^-20..2^-52 / 1e-5..1e-16 from 1, 0, -1, 2, 1/2, 3; the stored coefficient and exponent of EVERY parse request are judged to the last bit: the nearest double of the exact value, the value of operation-wise rounding [literals correctly rounded, one division, additions in the order of occurrence], or between the two) texts rendered from random term lists of the multivariate grammar (1-5 terms, 0-4 distinct variables per term in random "
         "order, coefficient forms '', n, n.d, .d, a/b, exponent forms n, -n, n.d, a/b, -a/b, random Unicode white space) through "
         "both entry points, evaluated under full and incomplete assignments; univariate texts through both parsers; random "
         "term structures through eval_multivariate. Hardening families: 0^0, zero / negative / signed-zero values and values at every "
@@ -166,20 +176,106 @@ def _num(neg, m, s, dm, ds):
         v = v / Fraction(dm, 10 ** ds)
     return -v if neg else v
 
-def _intended(extra):
+def _intended_raw(extra):
+    """-> [(coefficient spelling, [(name, exponent spelling) per OCCURRENCE, in order])]; a spelling is the tuple
+    (neg, m, s, dm, ds) = +-(m / 10^s) / (dm / 10^ds), dm = 0: no denominator"""
     i = 0
     n = int(extra[i]); i += 1
     terms = []
     for _ in range(n):
-        neg, cm, cs, dm, ds = (int(v) for v in extra[i:i + 5]); i += 5
-        c = _num(neg, cm, cs, dm, ds)
+        c = tuple(int(v) for v in extra[i:i + 5]); i += 5
         nv = int(extra[i]); i += 1
         vs = []
         for _ in range(nv):
             cp, eneg, em, es, fm, fs = (int(v) for v in extra[i:i + 6]); i += 6
-            vs.append((chr(cp), _num(eneg, em, es, fm, fs)))
+            vs.append((chr(cp), (eneg, em, es, fm, fs)))
         terms.append((c, vs))
     return terms
+
+
+def _intended(extra):
+    """the meaning of the text in exact rationals: a repeated variable multiplies, so its exponents are added"""
+    terms = []
+    for c, occ in _intended_raw(extra):
+        vs = []
+        for name, e in occ:
+            v = _num(*e)
+            for k, (nm, old) in enumerate(vs):
+                if nm == name:
+                    vs[k] = (nm, old + v)
+                    break
+            else:
+                vs.append((name, v))
+        terms.append((_num(*c), vs))
+    return terms
+
+
+def _fl_lit(m, s):
+    """the binary64 value of the decimal literal m / 10^s: correctly rounded (f64::from_str is; so is Fraction.__float__)"""
+    try:
+        return float(Fraction(m, 10 ** s))
+    except OverflowError:
+        return float("inf")
+
+
+def _fl_num(neg, m, s, dm, ds):
+    """what binary64 arithmetic makes of one spelling: each literal correctly rounded, then ONE IEEE division; None when
+    the rounded denominator is 0 or something is not finite (no exact judgement then)"""
+    a = _fl_lit(m, s)
+    if dm:
+        b = _fl_lit(dm, ds)
+        if b == 0 or b != b or a in (float("inf"),) or b in (float("inf"),):
+            return None
+        a = a / b
+    if a != a or a in (float("inf"), float("-inf")):
+        return None
+    return -a if neg else a
+
+
+def _nearest(q):
+    """the double nearest to the rational q (single rounding), None beyond the range"""
+    try:
+        return float(q)
+    except OverflowError:
+        return None
+
+
+def _stored_ok(got, exact, chain):
+    """Is `got` (Fraction of the stored double, None = not finite) a correct binary64 rendering of a number whose exact
+    value is `exact`?  Accepted: the double nearest to the exact value (the best possible answer), the value `chain`
+    that operation-wise rounding of the spelling gives (each literal correctly rounded, one IEEE division for a/b, IEEE
+    additions from left to right for the exponents of a repeated variable), and anything between the two.  For a
+    literal and for a/b with a, b below 2^53 the two coincide: the stored number is then fixed to the last bit.  A
+    "whole up to rounding" snap, a tolerance in an "is it 1" test, a division replaced by a multiplication with the
+    reciprocal ... are outside this set as soon as the exact value is not the special value itself."""
+    if got is None:
+        return False
+    cands = []
+    n = _nearest(exact)
+    if n is not None:
+        cands.append(Fraction(n))
+    if chain is not None:
+        cands.append(Fraction(chain))
+    if not cands:
+        return abs(got - exact) <= 4 * U * abs(exact)      # beyond the range / degenerate spelling: the old relative test
+    return min(cands) <= got <= max(cands)
+
+
+def _chain_exponents(occ):
+    """{name: binary64 sum of the occurrences' exponents from left to right, or None}"""
+    out = {}
+    for name, e in occ:
+        v = _fl_num(*e)
+        if name not in out:
+            out[name] = v
+        elif out[name] is not None and v is not None:
+            out[name] = out[name] + v
+            if out[name] != out[name] or out[name] in (float("inf"), float("-inf")):
+                out[name] = None
+        else:
+            out[name] = None
+    return out
+
 
 LO, HI = Fraction(1, 2 ** 900), Fraction(2 ** 900)
 
@@ -310,10 +406,11 @@ def oracle(req, impl):
         terms, names = _parse_inter(t[2:], tok_frac)
         if len(terms) != len(want):
             return f"{len(terms)} terms returned, the string has {len(want)}"
+        raw = _intended_raw(extra)
         used = set()
-        for k, ((c, vs), (wc, wvs)) in enumerate(zip(terms, want)):
-            if c is None or abs(c - wc) > 4 * U * abs(wc):
-                return f"term {k}: coefficient {c} but the string says {wc}"
+        for k, ((c, vs), (wc, wvs), (rc, rocc)) in enumerate(zip(terms, want, raw)):
+            if not _stored_ok(c, wc, _fl_num(*rc)):
+                return f"term {k}: coefficient {None if c is None else float(c)!r} but the string says {wc} (= {_nearest(wc)!r})"
             got_names = [v for v, _ in vs]
             if got_names != sorted(got_names):
                 return f"term {k}: variables not sorted by name: {got_names}"
@@ -322,9 +419,11 @@ def oracle(req, impl):
             wd = dict(wvs)
             if set(got_names) != set(wd):
                 return f"term {k}: variables {got_names}, the string has {sorted(wd)}"
+            chain = _chain_exponents(rocc)
             for v, e in vs:
-                if e is None or abs(e - wd[v]) > 4 * U * abs(wd[v]):
-                    return f"term {k}: exponent of {v} is {e}, the string says {wd[v]}"
+                if not _stored_ok(e, wd[v], chain.get(v)):
+                    return (f"term {k}: exponent of {v} is {None if e is None else float(e)!r}, the string says {wd[v]}"
+                            f" (= {_nearest(wd[v])!r}; added in binary64 in the order of occurrence: {chain.get(v)!r})")
             used |= set(got_names)
         if names != sorted(used):
             return f"variable list {names} is not the sorted set of variables used {sorted(used)}"
